@@ -12,7 +12,8 @@ const double INF = numeric_limits<double>::infinity();
 struct Iv { double lo, hi; bool il, iu; bool none; };
 const Iv NONE{-INF, INF, true, true, true};
 // pool; every value used by the law lies in the intersection of all of them: [2,5[
-const Iv POOL[] = {NONE, {0, 10, true, true, false}, {0, 5, false, false, false}, {2, 8, true, false, false}, {-INF, 6, false, true, false}};
+// (the last two share their bound values with an earlier entry but differ in openness: an intersection decided on bound values alone is wrong for them)
+const Iv POOL[] = {NONE, {0, 10, true, true, false}, {0, 5, false, false, false}, {2, 8, true, false, false}, {-INF, 6, false, true, false}, {0, 10, false, false, false}, {0, 5, true, true, false}};
 const double VALS[] = {2, 2.5, 3, 3.5, 4, 4.5, 4.75};
 bool acc(const Iv& i, double v) { return i.none || ((i.il ? v >= i.lo : v > i.lo) && (i.iu ? v <= i.hi : v < i.hi)); }
 bool sameIv(const Iv& a, const Iv& b) { if (a.none || b.none) return a.none == b.none; return a.lo == b.lo && a.hi == b.hi && a.il == b.il && a.iu == b.iu; }
@@ -102,7 +103,7 @@ LAW(L1_alias_history, RC, 60000, 2000000, 300, "history with a chain of length >
     unique_ptr<Obj> o(new Obj(m.ns));
     c.desc << "obj0(ns='" << m.ns << "'){";
     for (int k = 0; k < m.n; ++k) {
-      Iv iv = POOL[c.below(5)]; double v = VALS[c.below(7)];
+      Iv iv = POOL[c.below(7)]; double v = VALS[c.below(7)];
       m.v.push_back(v); m.orig.push_back(iv); m.cur.push_back(iv); m.from.push_back(-1);
       o->add(new Parameter(m.fullName(k), v, mk(iv)));
       c.desc << m.shortName(k) << "=" << v << ":" << showIv(iv) << " ";
